@@ -64,7 +64,7 @@ func c17Shapes(op string) int {
 }
 
 // outcome classes of a connection
-var c17Outcomes = []string{"no-registration", "no-transport", "found-min", "found-prefix", "found-obfs4", "transport-error", "connecting-fail", "connecting-ok"}
+var c17Outcomes = []string{"no-registration", "no-transport", "found-min", "found-prefix", "found-obfs4", "transport-error", "connecting-fail", "connecting-ok", "accept-path"}
 
 // address families of the client
 var c17Families = []string{"v4", "v6", "v4mapped"}
@@ -275,6 +275,28 @@ func c17Scenario(r *sim.Run) {
 				wc.Write([]byte("application data 1"))
 				stReadN(wc, 18, 20*time.Second)
 			}
+		case "accept-path":
+			// the station's accept path (handleNewConn): it asks the accepted connection for its file
+			// descriptor to read the original destination; File() fails when the process is out of
+			// descriptors, with an OpError that names both endpoints
+			H, S := simnet.Pipe(r, "accept.client", "accept.station", cliAddr, &net.TCPAddr{IP: phantom, Port: 443})
+			H.Sched, S.Sched = true, true
+			if k := tp.Choose("file-fault", len(simnet.FileShapes)+1); k > 0 {
+				S.PlanFault("file", 0, simnet.FileShapes[k-1].Make(S, "file"))
+				desc += " file-fault=" + simnet.FileShapes[k-1].Name
+				r.Cover("file-fault", simnet.FileShapes[k-1].Name)
+			}
+			acceptDone := false
+			s.Spawn("accept.handler", func() {
+				w.cm.handleNewConn(w.rm, S)
+				acceptDone = true
+			})
+			for i := 0; i < 20 && !acceptDone; i++ {
+				w.settle()
+				time.Sleep(time.Second)
+			}
+			H.Close()
+			r.Probe("accept_path")
 		case "connecting-fail", "connecting-ok":
 			// a registration for a transport with which the STATION connects to the client (as the
 			// DTLS transport does): ingest calls Connect and relays over the returned connection
